@@ -242,7 +242,7 @@ prop("C06",
      outside="more than 2 descriptors; header-region reads (try_init), the in-place scan and the CLI flow incl. block devices (F3 of the property text) are not executable here; 'a chunk found in a seed is never requested' is the composition of this step with the lookup/remove step (entry removed when written)",
      assumptions=["clone-index entries are injected directly; that feeding a chunk removes its entry is c02_index_lookup_step / c13_lookup_then_write_step"])
 prop("C17",
-     outside="protobuf decoding (unknown fields) and the header checksum computation (environment in the try_init harness), real decompression; more than 2 descriptors in try_init / 3 in chunk_stream",
+     outside="protobuf decoding (unknown fields), Archive::try_init beyond its pre-header arithmetic (the post-decode harness found F15 and stopped finishing after the fix: not registered), real decompression; more than 3 descriptors in chunk_stream",
      assumptions=[])
 for nm, u in (("both_raw_comp", "quick"), ("both_comp_raw", "quick"), ("both_nocomp", "quick"), ("first_only", "quick"),
               ("second_only", "quick"), ("second_only_raw", "quick"), ("none", "quick")):
@@ -258,12 +258,10 @@ for nm in ("tft", "ftt", "ttt", "fft", "ttf"):
 h("c17_pre_header_magics", ["C17", "C15"], "quick", "every byte string of length 0..16", "verify_pre_header accepts exactly b\"BITA1\\0\" and the legacy b\"\\0BITA1\" prefixes, rejects everything else (incl. < 6 bytes) without panicking", ["Archive::verify_pre_header"])
 
 STUB_TRY_INIT = "try_init: Blake2 over the header and protobuf decoding cannot be encoded; in the mirror (cfg(kani)) the checksum comparison is skipped and the decoded dictionary is the one the harness injects; everything try_init does before the checksum test and WITH the decoded dictionary runs as written; recording ArchiveReader mock (state in plain statics)"
-h("c17_try_init_post_decode", ["C17", "C15"], "quick",
-  "dictionary with 2 descriptors and 2 rebuild indexes: chunk data offset, relative offsets (<= 2^62 each), stored/source sizes, rebuild indexes, hash length, source size: all symbolic",
-  "try_init reads exactly the header region (pre-header, then dictionary + offset + checksum: nothing inferred from sizes it has not read); descriptors come out in DICTIONARY order with sizes/checksums verbatim and absolute offset = stored chunk-data offset + relative offset; rebuild order verbatim and accepted iff every index points at a descriptor; hash length, source size, header size reported verbatim",
-  ["Archive::try_init", "source_order_is_valid", "chunker_config_from_params", "compression_from_dictionary"], [STUB_TRY_INIT], heavy=True)
-h("c15_try_init_offsets_any", ["C15"], "quick", "as c17_try_init_post_decode with chunk data offset and relative offsets ANY u64",
-  "no panic / overflow on any offsets an untrusted dictionary can carry", ["Archive::try_init"], [STUB_TRY_INIT], heavy=True)
+# NOT REGISTERED any more (kept in proofs/archive.rs as the record): c17_try_init_post_decode, c17_try_init_post_decode_desc,
+# c15_try_init_offsets_any.  They ran in 60 s of symbolic execution (8 min wall) and found F15; the F15 fix itself -- a
+# fallible `collect::<Result<Vec<_>, _>>()` over the descriptors -- made them climb past 22 GB without a verdict in
+# 30 minutes, at every unwind bound tried.  A check that cannot finish on the unchanged tree is not registered.
 h("c15_try_init_dictionary_size_any", ["C15"], "quick", "pre-header with a valid magic and ANY 8-byte dictionary size",
   "no panic / overflow between the pre-header and the second read, which asks for exactly dictionary + 8 + 64 bytes at offset 14 -- or the archive is refused (found F14)",
   ["Archive::try_init", "Archive::verify_pre_header"], [STUB_TRY_INIT])
@@ -328,7 +326,7 @@ STUB_PLANNER = "planner scripted: bool-guarded prologues (cfg(kani), off by defa
 for nm, d, c in (("min", "one chunk moved: A(2)@3 -> @0", ""),
               ("min_faults", "as min; the k-th read or the k-th write fails (k symbolic, incl. none)", "; a failed read or write makes the run fail (never a success with a wrong file)"),
               ("two_dests", "one chunk copied to two destinations: D(2)@6 -> @8,@10; a second chunk still to be fetched stays in the clone index", "")):
-    h("c03_exec_" + nm, ["C03", "C05"] if "faults" in nm else ["C03"], "quick", d + "; layout and plan concrete, EVERY byte of the 12-byte prior file content symbolic",
+    h("c03_exec_" + nm, ["C03"], "quick", d + "; layout and plan concrete, EVERY byte of the 12-byte prior file content symbolic",
       "whole run of the real reorder_in_place: after a run that reports success every moved chunk's ORIGINAL bytes are at all of its destinations (a chunk buffered by StoreInMem is written from the buffer, not re-read after it was overwritten), bytes outside the destinations are untouched, moved chunks have left the clone index, the moved-byte count is right" + c,
       EXEC, [MODEL_MAP, STUB_PLANNER], heavy=True)
 
